@@ -49,7 +49,7 @@ func (t *ToyService) Obj(a ToyArg, list []string, f float64, b bool) (int, error
 	t.Calls["Obj"]++
 	return len(list), nil
 }
-func (t *ToyService) URL() string { t.Calls["URL"]++; return "u" }
+func (t *ToyService) URL() string    { t.Calls["URL"]++; return "u" }
 func (t *ToyService) secret() string { t.Calls["secret"]++; return "s" }
 
 type unexportedArg struct{ X int }
